@@ -265,6 +265,44 @@ func c15SpecialList() []c15Special {
 		{"library-selective", map[string]string{"主.zn": "导入《@JSON》之生成JSON\n（显示：“ok”）\n输出（解析JSON：“{}”）"}, s("ok"), 42},
 		{"missing-library", map[string]string{"主.zn": "导入《@无此库》\n输出1"}, "", 64},
 		{"library-name-read-only", map[string]string{"主.zn": "导入《@JSON》\n生成JSON = 1\n输出1"}, "", 44},
+		// a module file that holds nothing but import statements is a module like any other
+		{"import-only-chain", map[string]string{
+			"主.zn": "导入“甲”\n（显示：“main”）\n输出1",
+			"甲.zn": "导入“乙”",
+			"乙.zn": "（显示：“乙”）\n如何乙法？\n    输出1",
+		}, s("乙") + " | " + s("main"), 0},
+		{"import-only-two-imports", map[string]string{
+			"主.zn": "导入“甲”\n（显示：“main”）\n输出1",
+			"甲.zn": "导入“乙”\n导入“丙”",
+			"乙.zn": "（显示：“乙”）",
+			"丙.zn": "（显示：“丙”）",
+		}, s("乙") + " | " + s("丙") + " | " + s("main"), 0},
+		{"import-only-cycle", map[string]string{"主.zn": "导入“甲”\n输出1", "甲.zn": "导入“乙”", "乙.zn": "导入“甲”"}, "", 63},
+		{"import-only-self", map[string]string{"主.zn": "导入“甲”\n输出1", "甲.zn": "导入“甲”"}, "", 63},
+		{"import-only-in-3-cycle", map[string]string{
+			"主.zn": "导入“甲”\n输出1", "甲.zn": "导入“乙”",
+			"乙.zn": "导入“丙”\n如何乙法？\n    输出1", "丙.zn": "导入“甲”\n如何丙法？\n    输出1",
+		}, "", 63},
+		{"import-only-missing-behind", map[string]string{"主.zn": "导入“甲”\n输出1", "甲.zn": "导入“无此”"}, "", 60},
+		// a loaded module's own methods and types stay read-only for its own methods
+		{"own-method-name-read-only-after-load", map[string]string{
+			"主.zn": "导入“库”\n（显示：“main”）\n（显示：（改法））\n输出（取值）",
+			"库.zn": "如何取值？\n    输出14\n如何改法？\n    取值 = 5\n    输出1",
+		}, s("main"), 44},
+		{"own-type-name-read-only-after-load", map[string]string{
+			"主.zn": "导入“库”\n（显示：“main”）\n（显示：（改型））\n输出1",
+			"库.zn": "定义货件：\n    其P = 1\n如何改型？\n    货件 = 9\n    输出1",
+		}, s("main"), 44},
+		{"own-method-name-read-only-handled", map[string]string{
+			"主.zn": "导入“库”\n（显示：（试改））\n输出（取值）",
+			"库.zn": "如何取值？\n    输出14\n如何试改？\n    取值 = 5\n    输出（取值）\n    拦截异常：\n        输出（取值）",
+		}, zn.Canon(float64(14)), 0},
+		// an exception leaves an imported method through a loop of the IMPORTER and is handled
+		// further out: the imported module still has its names afterwards
+		{"exception-through-importer-loop", map[string]string{
+			"主.zn": "导入“乙”\n如何外？\n    以V遍历【1，2】：\n        （乙险：V）\n    输出0\n    拦截异常：\n        输出-1\n（显示：（外））\n（显示：（乙总））\n每当真：\n    （显示：（外））\n    结束循环\n（显示：（乙总））\n输出1",
+			"乙.zn": "如何乙助？\n    输出203\n如何乙总？\n    输出（乙助）\n如何乙险？\n    输入参\n    抛出异常：“险”！",
+		}, zn.Canon(float64(-1)) + " | " + zn.Canon(float64(203)) + " | " + zn.Canon(float64(-1)) + " | " + zn.Canon(float64(203)), 0},
 		{"diamond-runs-once", map[string]string{
 			"主.zn": "导入“甲”\n导入“乙”\n（显示：“main”）\n输出（甲法） + （乙法）",
 			"甲.zn": "导入“丙”\n（显示：“甲”）\n如何甲法？\n    输出（丙法）",
@@ -375,7 +413,7 @@ func init() {
 	mc.Register(&mc.Check{
 		ID:    "C15",
 		Level: "exploration",
-		Rule: "E1 exhaustive: every directed graph with self-loops on n module files (all 2^(n*n) edge sets; module 0 = main file; edges into 0 import the main file by name) x both import orders; acyclic reachable parts additionally x 6 probe variants (calls only, assignment to an imported name -> 44, read of a non-exported variable -> 42, use of an imported type, selective import then use of an unlisted name -> 42, selective import then call). Every module prints a marker when its body runs and defines a method calling the method of each module it imports, a type and a plain variable. Real files in a scratch directory through LoadFile/Execute. Oracle from the graph alone: reachable cycle => error 63; otherwise the exact load order (each module once, after everything it imports, main last), the exact call traces and the probe outcome. Plus the same-type-name family (every subset of >= 2 of {main, module 1, module 2} defining a type of one name whose method uses a helper of its own module, importers taking only the factory method, both import orders, the objects used in every order, twice) and 8 fixed scenarios (nested directories, missing module 60, library, selective library import, missing library 64, read-only library name, diamond). Distinct by construction; non-trivial = at least one edge.",
+		Rule: "E1 exhaustive: every directed graph with self-loops on n module files (all 2^(n*n) edge sets; module 0 = main file; edges into 0 import the main file by name) x both import orders; acyclic reachable parts additionally x 6 probe variants (calls only, assignment to an imported name -> 44, read of a non-exported variable -> 42, use of an imported type, selective import then use of an unlisted name -> 42, selective import then call). Every module prints a marker when its body runs and defines a method calling the method of each module it imports, a type and a plain variable. Real files in a scratch directory through LoadFile/Execute. Oracle from the graph alone: reachable cycle => error 63; otherwise the exact load order (each module once, after everything it imports, main last), the exact call traces and the probe outcome. Plus the same-type-name family (every subset of >= 2 of {main, module 1, module 2} defining a type of one name whose method uses a helper of its own module, importers taking only the factory method, both import orders, the objects used in every order, twice) and 17 fixed scenarios (among them module files made of import statements only - chain, two imports, cycles, missing module behind - and a loaded module's own method / type names staying read-only for its own methods) (nested directories, missing module 60, library, selective library import, missing library 64, read-only library name, diamond). Distinct by construction; non-trivial = at least one edge.",
 		Assumptions: []string{
 			"importing the same module twice from one file is not generated (statement does not say whether the second import is an error)",
 			"module graphs above n files are not covered",
